@@ -24,7 +24,7 @@ FR = (" + reflection sweep over every exported method of Stack and Condition wit
 def sm(pid, text, frame=False):
     DESC[pid] = dict(technique=SM + (FR if frame else ""), design_ref="DESIGN.md section 4 " + pid, text=text, note=NOTE_SM)
 
-sm("C03", "Capacity as a TLC invariant (CapInv, CapObs) over all growth actions - Push batches, Insert, Transfer-into, Marshal-into - interleaved with Pop/Remove/Reset, for capacities 1-4 and lengths up to 4, both handles of a Transfer; every transition / path to depth 2-3 / random walk replayed on real Stacks with Len, Cap, Avail, IsFull and the raw slots compared after each step; random boundary-seeking histories validated as traces.")
+sm("C03", "Capacity as a TLC invariant (CapInv, CapObs) over all growth actions - Push batches, Insert, Transfer-into, Marshal-into - interleaved with Pop/Remove/Reset, for capacities 1-4 and lengths up to 4, both handles of a Transfer; every transition / path to depth 2-3 / random walk replayed on real Stacks with Len, Cap, Avail, IsFull and the raw slots compared after each step; random boundary-seeking histories validated as traces. The capacity arithmetic is also an integer core (spec/CapCore.tla) whose invariant CapInv /\\ CapObs Apalache proves inductive for every capacity and length; TLC checks that every transition of Stackage.tla projects to a step of that core (CapRefines).")
 sm("C08", "Every method taking an int x every index in -(L+1)..L+1 plus MinInt/MaxInt x lengths 0-4 x the four index-option sets enumerated by TLC (IdxMode=all) and replayed with a post-call re-validation of IsInit, Kind, Len, every Index, the configuration record and the raw slots; every method with an any / ...any / Operator parameter (found by reflection) x 38 awkward Go values, each followed by a usability probe, validated by Frame.tla's AwkwardRule (no panic, receiver still usable); receivers and arguments include whole structures with awkward LEAVES (nil pointers in slices, two struct types differing in the visibility of an embedded field, maps with different key sets, a NaN-keyed map). Traverse case families (every path of length 0-3 on all depth-2 trees, random deeper ones): an index that addresses nothing makes Traverse report failure, a failed descent is never resumed on an outer level.", frame=True)
 sm("C09", "ReadOnlyFrame checked by TLC on every enabled transition of the state machine started read-only (all call families); tables and traces replayed on the real Stack; every exported method of Stack and Condition (reflection) called on read-only receivers singly and in random sequences of 2-4, each event validated by Frame.tla's ReadOnlyRule against a deep VerifDump snapshot; afterwards the flag is cleared (snapshot must equal the one at flag-set time) and a setter must take effect again. Every event also records what a SECOND handle to the same instance shows afterwards (Condition.Init may only replace the instance behind the handle it was called on); read-only instances are additionally handed over as arguments and nested inside writable parents.", frame=True)
 sm("C13", "NoNestPush and option/content independence checked by TLC; push batches over {nil, leaf, native Stack, alias, pointer-to-alias, Condition, Condition holding a Stack} (each batch handed over as one slice that must come back unmodified) interleaved with set/clear/toggle of no-nesting on every kind replayed on real Stacks (content, CanNest, IsNesting, raw option bits); Len / IsNesting of every node of random trees against Measure (spec/Trees.tla). Every harness process first offers typed nil pointers, zero aliases and function-local LOOK-ALIKES of the alias types (same printed name, no Stack) to the converters, so that anything the package remembers about types has seen the worst before a case runs.")
